@@ -356,6 +356,7 @@ PROPS = {
         theorems=[(CMP + 'C04', ['DX.absent_contrib', 'DX.default_fields_exact', 'DX.clone_struct_default_where',
                                  'DX.clone_struct_where', 'DX.clone_enum_where', 'DX.copy_enum_where', 'DX.copy_struct_where',
                                  'DX.ops_where', 'DX.default_struct_where', 'DX.default_struct_where_value', 'DX.debug_struct_where', 'DX.selBounds_walk', 'DX.cmp_struct_where', 'DX.cmp_enum_where', ]),
+                  (CMP + 'C04Enum', ['DX.debug_enum_where', 'DX.default_enum_where', 'DX.default_enum_where_value', 'DX.deref_where']),
                   ('DeriveExModel.Lemmas.Bounds', ['DX.FieldE.pushBoundsTo_contrib', 'DX.walk_true'])],
         l1=[('bounds', 6000, 200000), ('all', 3000, 100000), ('ops', 2000, 50000), ('cmpN', 2000, 50000)],
         labels=r'^e\d+:',
@@ -363,7 +364,7 @@ PROPS = {
         l1_is_concrete=('tokens',),
         l1_concrete_if=proved_where,
         l1_concrete_text='the where-clause of this impl differs from the documented resolution of bound(..) / default bounds (the model, proved equal to Plan.whereClause for this trait and item kind)',
-        level_text='partial: Lean theorems that the where-clause threaded by the builders is the declarative walk and that with no bound(..) it consists of the declared predicates plus exactly the used field types mentioning a parameter (proved for Clone and Copy; the other traits are tied by L1 only so far); L1 compares every where-clause token for token',
+        level_text='partial: Lean theorems that the where-clause threaded by every builder (Clone, Copy, operators, Default, Debug, Deref, the five comparison traits; structs and enums) is the declarative walk, and that with no bound(..) it consists of the declared predicates plus exactly the used field types mentioning a parameter; L1 compares every where-clause token for token; "applies to an instantiation exactly when" is rustc\'s trait solver: validated by the well-typed grammar of C20, not proved',
     ),
     'C04': dict(
         theorems=[(CMP + 'C04Enum', ['DX.debug_enum_where', 'DX.default_enum_where', 'DX.default_enum_where_value', 'DX.debugExpr_where', 'DX.deref_where']),
@@ -380,7 +381,7 @@ PROPS = {
         l1_is_concrete=('tokens',),
         l1_concrete_if=proved_where,
         l1_concrete_text='the where-clause of this impl differs from the documented resolution of bound(..) / default bounds (the model, proved equal to Plan.whereClause for this trait and item kind)',
-        level_text='Lean theorems: the flag-threading of the builders equals the documented walk over chains of levels (reached levels contribute verbatim; continue iff absent or `..`; stops are local; declared where-clause retained), with the per-trait level tables proved for Clone and Copy and the helper-attribute level (most specific first) for the comparison traits; L1 compares every where-clause token for token on assignments of all bound(..) shapes to all levels',
+        level_text='Lean theorems: the flag-threading of every builder equals the documented walk over chains of levels (reached levels contribute verbatim; continue iff absent or `..`; stops are local; declared where-clause retained), with the per-trait level tables proved for every derivable trait on structs and enums (Clone, Copy, operators, Default, Debug, Deref, comparison traits with the helper-attribute level most specific first); L1 compares every where-clause token for token on assignments of all bound(..) shapes to all levels',
     ),
     'C05': dict(
         theorems=[('DeriveExModel.Props.Tables', ['DX.isMatch_table_model', 'DX.isMatch_table_doc', 'DX.isMatch_table_complete']), (CMP + 'C05', ['DX.field_error_iff_misuse', 'DX.trait_error_iff_misuse', 'DX.valid_use_accepted',
